@@ -5,7 +5,8 @@
    without asking the allocator.  PARTIAL: strings and the contents after a
    failure are probed on the implementation only. *)
 From Coq Require Import ZArith List.
-From BS Require Import Word BumpSpec ChunkSpec Arena ArenaInv ArenaStats ArenaMisc ArenaExt VecCap VecCapProofs.
+From BS Require Import Word BumpSpec ChunkSpec Arena ArenaInv ArenaStats ArenaMisc ArenaExt VecCap VecCapProofs CapRefine.
+From BS.gen Require CapSites.
 Import ListNotations.
 Open Scope Z_scope.
 
@@ -89,6 +90,19 @@ Theorem C07_zst_vector_never_overflows :
   (forall n, (o = VExtend n \/ (o = VPush /\ n = 1)) -> (vo_err out = None <-> vlen s + n <= W - 1)).
 Proof. exact zst_vector_never_overflows. Qed.
 
+(* "a size computation that overflows is reported": the growth computations of the CURRENT sources never
+   trap (Ok) and report an overflowing length as None = capacity_overflow, for every input *)
+Theorem C07_growth_computations_of_the_source_report_overflow :
+  forall len cap add sz,
+  CapSites.bv_grow_amortized len cap add sz = Ok (amortized_target sz len cap add) /\
+  CapSites.bv_grow_exact len cap add sz = Ok (exact_target len add) /\
+  (W <= len + add -> amortized_target sz len cap add = None /\ exact_target len add = None).
+Proof.
+  intros. split; [apply bv_grow_amortized_refines|]. split; [apply bv_grow_exact_refines|].
+  intros H. unfold amortized_target, exact_target.
+  assert (E : W <=? len + add = true) by (apply Z.leb_le; exact H). rewrite E. split; reflexivity.
+Qed.
+
 Print Assumptions C07_failed_alloc_keeps_current_chunk.
 Print Assumptions C07_fresh_chunk_fits.
 Print Assumptions C07_refused_is_error.
@@ -99,3 +113,4 @@ Print Assumptions C07_claimed_alloc_fails.
 Print Assumptions C07_collection_failure_is_atomic.
 Print Assumptions C07_collection_overflow_is_error.
 Print Assumptions C07_zst_vector_never_overflows.
+Print Assumptions C07_growth_computations_of_the_source_report_overflow.
